@@ -34,6 +34,7 @@ RULE = (
     ' Round 9: writes compared in order; re-issued parked commands; report sequences ending empty.'
     ' Round 12: hidden-switch sweep per version pair; registry shapes (254 taken, full, empty, 0/255 present) with id requests.'
     ' Round 13: version reports that resolve to no protocol; node version texts of the sleepers.'
+    ' Round 14: `rx_cancel` (the listening task is cancelled while the n-th write of the step hangs).'
 )
 ASSUMPTIONS = [
     "gateway.protocol_version = v (public setter) pins each gateway",
